@@ -45,6 +45,7 @@ def aggregate(pid, tier, seed, results, meta, wall):
                decisions=0, forks=0, q_sat=0, q_unsat=0, q_unknown=0,
                solver_s=0.0, inconclusive=0, budget_exhausted=0)
     samples, notes, labels = [], [], {}
+    entered = set()
     violations, spurious, crashed, valprob = [], [], [], []
     rewrites = set()
     per_job = []
@@ -66,6 +67,7 @@ def aggregate(pid, tier, seed, results, meta, wall):
             if len(samples) < 16:
                 samples.append(s)
         notes.extend(r.get('notes', []))
+        entered.update(r.get('functions_entered', []))
         for lab, (n, d) in r.get('labels', {}).items():
             a = labels.setdefault(lab, [0, 0])
             a[0] += n
@@ -95,6 +97,7 @@ def aggregate(pid, tier, seed, results, meta, wall):
         explanation=meta.get('explanation', ''),
         bounds=meta.get('bounds', {}),
         functions_encoded=meta.get('functions', []),
+        functions_entered_measured=sorted(entered),
         stubs=meta.get('stubs', []),
         outside_claim=meta.get('outside', []),
         engine=tot, obligations_by_label=labels,
